@@ -38,7 +38,7 @@ PROP = "C15"
 LEVEL = "fault_enumeration"
 TECHNIQUE = "history recording + offline check against a sequential cache model; crash-point enumeration (os._exit at every LINE event and inside every file operation, follow-up in a fresh process); exhaustive two-writer schedule enumeration under gates; threaded scan stress with yield injection"
 RULE = ("(1) ALL sequences of server behaviours {newer, same, older, up-to-date, error status, garbage, transport error} of length <=3 + 200 sampled "
-        "of length 4 (quick) / ALL of length <=5 + sampled length 6 (thorough), each with one client object, with a fresh client per step and with two long-lived clients taking turns; (2) every LINE event of request_profile "
+        "of length 4 (quick) / ALL of length <=4 + 4000 sampled of length 5-6 (thorough), each with one client object, with a fresh client per step and with two long-lived clients taking turns; (2) every LINE event of request_profile "
         "after the response arrived and 6 file-operation points as crash points, each followed by a fresh-process inspection + 2 requests; "
         "(3a) ALL interleavings of two writers' file steps (70 for create/write/close/rename), cache read after every step; (3b) the real "
         "ofxget._queue_scans with random delays and yield injection; (4) client pairs over equal/different ORG x FID x URL (incl. same host, "
@@ -52,11 +52,11 @@ LEVEL_TEXT = ("Fault enumeration: behaviours, crash points and two-writer schedu
               "(exhaustive: true for those parts); the scan stress reports the interleavings it actually observed.")
 LEVEL_NOTE = "Crash = process death (os._exit), not power loss: no fsync semantics are examined. Only the urllib transport is reachable."
 DESIGN_REF = "DESIGN.md §3 C15"
-EXHAUSTIVE = {"quick": "all behaviour sequences of length <=3 (x2 client modes); all LINE-event crash points of request_profile + 6 file-op points; all 70 two-writer schedules",
-              "thorough": "all behaviour sequences of length <=5 (x2 client modes); crash points x2 body sizes; all 70 schedules x 3 body-size pairs"}
+EXHAUSTIVE = {"quick": "all behaviour sequences of length <=3 (x3 client modes); all LINE-event crash points of request_profile + 6 file-op points; all 70 two-writer schedules",
+              "thorough": "all behaviour sequences of length <=4 (x3 client modes); crash points x2 body sizes; all 70 schedules x 3 body-size pairs"}
 MIN_COUNTERS = {"quick": {"seq_histories": 1500, "seq_steps": 5000, "crash_points": 20, "crash_followups": 20, "schedules": 70, "schedule_steps_observed": 250,
                           "scan_runs": 3, "scan_requests": 90, "wrongserver_pairs": 60},
-                "thorough": {"seq_histories": 40000, "seq_steps": 190000, "crash_points": 40, "crash_followups": 40, "schedules": 210, "schedule_steps_observed": 750,
+                "thorough": {"seq_histories": 12000, "seq_steps": 45000, "crash_points": 40, "crash_followups": 40, "schedules": 210, "schedule_steps_observed": 750,
                              "scan_runs": 30, "scan_requests": 900, "wrongserver_pairs": 400}}
 
 BEHAVIOURS = ["newer", "same", "older", "uptodate", "error", "garbage", "transport"]
@@ -207,7 +207,7 @@ def run_history(ctx, net, seq, fresh, variant):
 
 
 def seq_monitor(ctx, net):
-    maxlen = 3 if ctx.tier == "quick" else 5
+    maxlen = 3 if ctx.tier == "quick" else 4
     seqs = [s for n in range(1, maxlen + 1) for s in itertools.product(BEHAVIOURS, repeat=n)]
     if ctx.tier == "quick":
         r4 = random.Random(f"C15s/{ctx.seed}")
@@ -227,8 +227,8 @@ def seq_monitor(ctx, net):
             ctx.sample({"monitor": "sequential history", "behaviours": list(seq), "clients": ["same object", "fresh per step"]})
     if ctx.tier == "thorough":
         rng = ctx.rng
-        for j in range(3000 // ctx.nshards):
-            seq = [rng.choice(BEHAVIOURS) for _ in range(6)]
+        for j in range(4000 // ctx.nshards):
+            seq = [rng.choice(BEHAVIOURS) for _ in range(rng.choice([5, 6]))]
             run_history(ctx, net, seq, rng.choice([False, True, "alternate"]), variant=j % 5)
             ctx.count("seq_histories")
             ctx.distinct(("seq6", tuple(seq), j))
